@@ -112,14 +112,80 @@ func init() {
 		}
 		p2s := findFunc(f, "sqlJsonParser", "path2Sql")
 		str := findFunc(f, "sqlJsonParser", "String")
-		if p2s == nil || str == nil {
-			return "", fmt.Errorf("%s: sqlJsonParser.path2Sql / String not found", rel)
+		mk := findFunc(f, "ParserPlanner", "json")
+		if p2s == nil || str == nil || mk == nil {
+			return "", fmt.Errorf("%s: sqlJsonParser.path2Sql / String / ParserPlanner.json not found", rel)
 		}
+		// 1. the type of a path: []sql.SQLObject (field `paths [][]sql.SQLObject`, parameter `path []sql.SQLObject`)
+		if len(p2s.Type.Params.List) < 1 || nodeText(fset, p2s.Type.Params.List[0].Type) != "[]sql.SQLObject" {
+			return "", fmt.Errorf("path2Sql: the path parameter is not []sql.SQLObject")
+		}
+		// 2. where the parts are built (ParserPlanner.json): every assignment to jsonPaths[i][j] is a NewIntVal of the
+		//    parsed int (guarded by the type assertion on typed[j]) or NewStringVal(name); nothing else stores a part
+		nParts := 0
+		var bad error
+		ast.Inspect(mk.Body, func(n ast.Node) bool {
+			as, ok := n.(*ast.AssignStmt)
+			if !ok {
+				return true
+			}
+			for k, l := range as.Lhs {
+				lt := nodeText(fset, l)
+				if !strings.HasPrefix(lt, "jsonPaths") {
+					continue
+				}
+				rhs := ""
+				if k < len(as.Rhs) {
+					rhs = nodeText(fset, as.Rhs[k])
+				}
+				switch lt {
+				case "jsonPaths":
+					if rhs != "make([][]sql.SQLObject, len(p.Vals))" {
+						bad = fmt.Errorf("json: jsonPaths is built as %q", rhs)
+					}
+				case "jsonPaths[i]":
+					if rhs != "make([]sql.SQLObject, len(names))" {
+						bad = fmt.Errorf("json: jsonPaths[i] is built as %q", rhs)
+					}
+				case "jsonPaths[i][j]":
+					nParts++
+					if rhs != "sql.NewIntVal(int64(idx) + 1)" && rhs != "sql.NewStringVal(name)" {
+						bad = fmt.Errorf("json: a path part is built as %q (expected sql.NewStringVal(name) or sql.NewIntVal(int64(idx) + 1))", rhs)
+					}
+				default:
+					bad = fmt.Errorf("json: unexpected store %q", lt)
+				}
+			}
+			return true
+		})
+		if bad != nil {
+			return "", bad
+		}
+		if nParts != 2 {
+			return "", fmt.Errorf("json: %d stores of a path part (expected the int branch and the name branch)", nParts)
+		}
+		// the int branch is guarded by the type assertion on the typed path
+		guard := false
+		ast.Inspect(mk.Body, func(n ast.Node) bool {
+			is, ok := n.(*ast.IfStmt)
+			if ok && is.Init != nil && nodeText(fset, is.Init) == "idx, ok := typed[j].(int)" && nodeText(fset, is.Cond) == "ok" {
+				guard = strings.Contains(nodeText(fset, is.Body), "jsonPaths[i][j] = sql.NewIntVal(int64(idx) + 1)") &&
+					!strings.Contains(nodeText(fset, is.Body), "NewStringVal") && !strings.Contains(nodeText(fset, is.Body), "NewRawObject")
+			}
+			return true
+		})
+		if !guard {
+			return "", fmt.Errorf("json: the NewIntVal store is not guarded by `if idx, ok := typed[j].(int); ok`")
+		}
+		if strings.Contains(nodeText(fset, mk.Body), "paths: jsonPaths") == false {
+			return "", fmt.Errorf("json: the sqlJsonParser is not built with paths: jsonPaths")
+		}
+		// 3. the rendering loops
 		loops := rangeLoops(p2s.Body)
 		if len(loops) != 1 || nodeText(fset, loops[0].X) != "path" || nodeText(fset, loops[0].Value) != "part" {
 			return "", fmt.Errorf("path2Sql: expected one loop `for i, part := range path`")
 		}
-		if err := loopEscapes(fset, loops[0], map[string]string{"res[i]": "(sql.NewStringVal(part)).String(ctx, opts...)"}); err != nil {
+		if err := loopEscapes(fset, loops[0], map[string]string{"res[i]": "part.String(ctx, opts...)"}); err != nil {
 			return "", fmt.Errorf("path2Sql: %v", err)
 		}
 		loops = rangeLoops(str.Body)
@@ -133,10 +199,9 @@ func init() {
 		}
 		f1 := sprintfFormats(fset, p2s.Body)
 		f2 := sprintfFormats(fset, str.Body)
-		wantPath := "if(JSONType(%[3]s, %[1]s as %[2]s) == 'String', JSONExtractString(%[3]s, %[2]s), JSONExtractRaw(%[3]s, %[2]s)) <- strings.Join(res, \",\") | partId | colName"
-		wantId := "jp_%d <- ctx.Id()"
+		wantPath := "if(JSONType(%[2]s, %[1]s) == 'String', JSONExtractString(%[2]s, %[1]s), JSONExtractRaw(%[2]s, %[1]s)) <- strings.Join(res, \",\") | colName"
 		wantMap := "mapFromArrays([%s], [%s]) <- strings.Join(strLabels, \",\") | strings.Join(strVals, \",\")"
-		if len(f1) != 2 || f1[0] != wantId || f1[1] != wantPath {
+		if len(f1) != 1 || f1[0] != wantPath {
 			return "", fmt.Errorf("path2Sql: format strings changed: %q", f1)
 		}
 		if len(f2) != 1 || f2[0] != wantMap {
@@ -144,10 +209,10 @@ func init() {
 		}
 		var b strings.Builder
 		b.WriteString("namespace Qryn.Gen.JsonParser\n")
-		b.WriteString("/-- path2Sql: every part of a path is rendered by `(sql.NewStringVal(part)).String(ctx, opts...)`; String: every label likewise -/\n")
+		b.WriteString("/-- ParserPlanner.json builds every path part as `sql.NewStringVal(name)` or, for a parsed `int`, `sql.NewIntVal(int64(idx)+1)`; path2Sql writes `part.String`; String writes every label through `NewStringVal` -/\n")
 		b.WriteString("def partsEscaped : Bool := true\ndef labelsEscaped : Bool := true\n")
-		fmt.Fprintf(&b, "def pathFormat : String := %s\ndef idFormat : String := %s\ndef mapFormat : String := %s\n",
-			leanStr(strings.SplitN(wantPath, " <- ", 2)[0]), leanStr("jp_%d"), leanStr("mapFromArrays([%s], [%s])"))
+		fmt.Fprintf(&b, "def pathFormat : String := %s\ndef mapFormat : String := %s\n",
+			leanStr(strings.SplitN(wantPath, " <- ", 2)[0]), leanStr("mapFromArrays([%s], [%s])"))
 		b.WriteString("end Qryn.Gen.JsonParser\n")
 		return b.String(), nil
 	})
